@@ -155,10 +155,14 @@ DictLookup(d, key) ==
     LET n == Len(d.a) \div 2
         hits == {i \in 1..n : d.a[2 * i - 1] = StrC(key)}
     IN IF Cardinality(hits) = 1 THEN d.a[2 * (CHOOSE i \in hits : TRUE)] ELSE Absent
-CtorDictOK(sig, sh, d) ==
+(* zkw: the class has an extra keyword-only field z = 7 declared before the others; it may (and, since it has a *)
+(* constant default, does) appear under its own name with its default                                           *)
+CtorDictOK(sig, sh, d, zkw) ==
     /\ d.k = "dict"
     /\ \A i \in 1..(Len(d.a) \div 2) :
-          /\ d.a[2 * i - 1].k = "str" /\ CIndex(d.a[2 * i - 1].s) \in 1..sig.n
+          /\ d.a[2 * i - 1].k = "str"
+          /\ \/ CIndex(d.a[2 * i - 1].s) \in 1..sig.n
+             \/ (zkw /\ d.a[2 * i - 1].s = "z" /\ d.a[2 * i] = IntC(7))
           /\ \A j \in 1..(Len(d.a) \div 2) : i # j => d.a[2 * i - 1] # d.a[2 * j - 1]
     /\ \A j \in 1..sig.n :
           IF j <= sh.npos THEN DictLookup(d, CFNames[j]) = IntC(10 + j)
